@@ -17,7 +17,7 @@ REQUIRED = ['getNBest_scale', 'plurality_scale', 'highestAverages_scale', 'sumVa
             'spav_scale', 'pav_scale', 'pav_fresh_scale',
             'scoreVoting_scale', 'scoreAggregate_scale', 'majorityJudgmentPlus_scale', 'star_scale',
             'bucklin_scale', 'bucklinWhole_scale', 'preferenceAddition_scale', 'bucklinSeats_scale', 'oklahoma_scale',
-            'baldwin_scale', 'hare_homogeneousSTV', 'stvSelector_scale', 'stvDistributor_scale']
+            'baldwin_scale', 'hare_homogeneousSTV', 'imperiali_homogeneousSTV', 'hagenbach_bischoff_homogeneousSTV', 'stvSelector_scale', 'stvDistributor_scale']
 # families whose scale invariance is proved in Lean (Props/C11.lean); the rest is covered by the oracle only
 PROVED_FAMILIES = ['plurality', 'ha_d_hondt', 'ha_sainte_lague', 'ha_imperiali', 'ha_danish', 'ha_macau', 'quota_selector_hare',
                    'rel_threshold_5pc', 'rel_threshold_third', 'rel_threshold_5pc_decimal', 'rel_threshold_5pc_float',
@@ -531,7 +531,7 @@ LEVEL_TEXT = ('Scale invariance is a Lean theorem, for ALL inputs of the model a
               'over-award policy, any previous gains and caps), the converters (linear maps) and hence positional rules and (satisfaction) '
               'approval voting, every entry of condorcet.EVALUATORS on arbitrary pairwise dictionaries and composed with RankedToCondorcetVotes, '
               'Condorcet winner / Smith / Schwartz sets, Benham, Tideman alternative (any number of seats), PAV (from any state of its coefficient cache), '
-              'SPAV, PreferenceAddition with any coefficient function and any number of seats (Bucklin, Oklahoma), Baldwin, STV with Gregory transfers and a homogeneous quota (selector and distributor); for positive natural '
+              'SPAV, PreferenceAddition with any coefficient function and any number of seats (Bucklin, Oklahoma), Baldwin, STV with Gregory transfers and a homogeneous quota (selector and distributor; stvSelector_scale covers Hare with accept_quota_equal True or False - stv_gregory_hare, stv_gregory_hare_strict - and Imperiali - stv_gregory_imperiali); for positive natural '
               'factors: ScoreVoting sum/mean/lower median, MajorityJudgment with the plus tie-break, STAR. Near-tie separation and equal-rational '
               'ties are theorems over all rationals. Nothing scale-free is left to the oracle alone; '
               'MajorityJudgment with the default tie-break is scale DEPENDENT (open finding). Returned numeric types are monitored (no float).')
